@@ -40,17 +40,27 @@ def prof_tokens(period, pts):
 
 
 def gen_scenario(rng, klass=None, ti_ok=False, profiles=True, no_io=False):
-    """klass: equal | execs | comms | ios | mixed | boundary"""
+    """klass: equal | execs | comms | ios | mixed | boundary | eqdyn (only on request: hosts with several pstates and/or a
+    speed profile, Host::set_pstate ops, and a uniform population of execs (same thread count, no bound, priority 1, no
+    control op) whose number changes over time; see platform_tokens() for what the monitor derives from the description)"""
     klass = klass or rng.choice(["equal", "execs", "execs", "comms", "comms", "ios", "mixed", "mixed", "boundary"])
     sc = {"plat": [], "ops": [], "acts": {}, "fat": [], "eq": None, "klass": klass, "feats": set(), "caps": {}}
     hosts, links, disks, routes = [], [], [], {}
-    nh = 1 if klass in ("equal",) else rng.range(1, 3) if klass in ("execs", "ios", "boundary") else rng.range(2, 3)
+    nh = 1 if klass in ("equal",) else rng.range(1, 2) if klass == "eqdyn" else rng.range(1, 3) if klass in ("execs", "ios", "boundary") else rng.range(2, 3)
     single_core = ti_ok
     for i in range(nh):
         speed = rng.choice(SPEEDS)
         cores = 1 if single_core else rng.choice([1, 1, 2, 4, 8])
-        h = {"name": "h%d" % i, "speed": speed, "cores": cores, "prof": None}
-        if profiles and klass != "equal" and rng.chance(1, 4):
+        h = {"name": "h%d" % i, "speed": speed, "cores": cores, "prof": None, "speeds": [speed]}
+        if klass == "eqdyn":
+            h["cores"] = 1 if single_core else rng.choice([1, 2, 2, 3, 4, 4, 8])
+            h["speeds"] += [speed * rng.choice([0.5, 0.25, 2.0, 0.75]) for _ in range(rng.choice([0, 1, 1, 2]))]
+            if len(h["speeds"]) > 1:
+                sc["feats"].add("pstates")
+            if profiles and rng.chance(1, 2):
+                h["prof"] = gen_profile(rng, [1.0, 0.5, 0.25, 0.75])
+                sc["feats"].add("speed-profile")
+        elif profiles and klass != "equal" and rng.chance(1, 4):
             h["prof"] = gen_profile(rng, [1.0, 0.5, 0.25, 0.75, 0.1])
             sc["feats"].add("speed-profile")
         hosts.append(h)
@@ -77,7 +87,7 @@ def gen_scenario(rng, klass=None, ti_ok=False, profiles=True, no_io=False):
         for i in range(nd):
             disks.append({"host": "h%d" % rng.below(nh), "name": "d%d" % i, "r": rng.choice(DBW), "w": rng.choice(DBW)})
     for h in hosts:
-        s = "H %s %s %d" % (h["name"], fx(h["speed"]), h["cores"])
+        s = "H %s %s %d" % (h["name"], ",".join(fx(x) for x in h["speeds"]), h["cores"])
         if h["prof"]:
             s += " " + prof_tokens(*h["prof"])
         sc["plat"].append(s)
@@ -145,6 +155,29 @@ def gen_scenario(rng, klass=None, ti_ok=False, profiles=True, no_io=False):
             add_exec(0.0, h, W)
         sc["eq"] = (h["speed"], h["cores"], k)
         sc["feats"].add("k<=n" if k <= h["cores"] else "k>n")
+    if klass == "eqdyn":
+        for h in hosts:
+            n = h["cores"]
+            threads = rng.range(2, n) if n > 1 and rng.chance(1, 3) else 1
+            k = rng.range(1, 10) if threads == 1 else rng.range(1, 4)
+            dur = rng.choice([1.0, 2.0, 0.5, 4.0])
+            together = rng.chance(1, 3)
+            tmax = 0.0
+            for _ in range(k):
+                t = 0.0 if together or rng.chance(1, 3) else rnd_time(rng, 4)
+                flops = h["speed"] * dur * (1.0 if together else rng.choice([1.0, 1.0, 0.5, 1.5, 3.0]))
+                add_exec(t, h, flops, 0.0, 1.0, threads)
+                tmax = max(tmax, t)
+            est = tmax + dur * max(1.0, k * threads / float(n))     # rough date of the last completion at full speed
+            for _ in range(rng.range(1, 3) if len(h["speeds"]) > 1 else 0):
+                t = rng.choice([0.0, est * 0.25, est * 0.5, est, rnd_time(rng, est), rnd_time(rng, est)])
+                ops.append((t, "pstate %s %d" % (h["name"], rng.below(len(h["speeds"])))))
+                sc["feats"].add("pstate-change")
+            if threads > 1:
+                sc["feats"].add("multi-thread")
+            sc["feats"].add("k*t<=n" if k * threads <= n else "k*t>n")
+            if n > 1 and k > 1 and (h["prof"] or len(h["speeds"]) > 1):
+                sc["feats"].add("speed-change+multicore+concurrent")
     if klass in ("execs", "mixed", "boundary"):
         ne = rng.range(1, 6) if klass != "mixed" else rng.range(1, 3)
         for _ in range(ne):
@@ -258,6 +291,93 @@ def run_harness(ctx, h, lines, workers=4, timeout=3000):
 
 def _num(t):
     return float.fromhex(t) if "x" in t else float(t)
+
+
+def _rat(x):
+    f = Fraction(x)
+    return "%d/%d" % (f.numerator, f.denominator) if f.denominator != 1 else "%d" % f.numerator
+
+
+def _profile_events(period, pts, tend):
+    """dates and values of the events of a repeating profile up to `tend` (ProfileBuilder::from_string with a periodicity:
+    the point (t_i, v_i) fires at t_i + m*period), exact rationals of the doubles of the description"""
+    period = Fraction(period)
+    pts = [(Fraction(t), Fraction(v)) for t, v in pts]
+    ev, m = [], 0
+    while True:
+        base = m * period
+        if base > tend or (m > 0 and period <= 0):
+            break
+        for t, v in pts:
+            if base + t <= tend:
+                ev.append((base + t, v))
+        m += 1
+    return ev
+
+
+def _merge(initial, *streams):
+    """piecewise-constant product of several (date, value) streams; each stream starts from initial[i] at date 0.
+    Among events with the same date of one stream the last one wins (program order)."""
+    cur = list(initial)
+    dates = sorted(set([Fraction(0)] + [t for st in streams for t, _ in st]))
+    idx = [0] * len(streams)
+    out = []
+    for d in dates:
+        for i, st in enumerate(streams):
+            while idx[i] < len(st) and st[idx[i]][0] <= d:
+                cur[i] = st[idx[i]][1]
+                idx[i] += 1
+        v = Fraction(1)
+        for c in cur:
+            v *= c
+        if not out or out[-1][1] != v:
+            out.append((d, v))
+    return out
+
+
+def platform_tokens(line, tend):
+    """What the monitor must know about the PLATFORM, derived from the scenario description alone (never from the kernel):
+      CAP rid mult t0:v0,t1:v1,...   capacity of resource rid = mult * v(t), v piecewise constant from t_i on.
+                                     Host: mult = cores, v = speed of the pstate in force (X .. pstate ops) * scale of the
+                                     speed profile in force; link: mult = 1, v = bandwidth (profile values are absolute)
+      EQH host threads               every exec ever started on that host uses `threads` cores, has no bound, priority 1 and
+                                     is never suspended / re-bound / re-prioritised: at any time the k running ones are `k
+                                     equal executions`, each must progress at v(t)*min(threads, cores/k)
+    `tend`: date of the end of the run (profiles are expanded up to it)."""
+    tend = Fraction(tend)
+    secs = [sec.split() for sec in line.split(" ; ")]
+    out = []
+    pst = {}
+    execs, touched = {}, set()
+    for t in secs:
+        if t and t[0] == "X":
+            if t[2] == "pstate":
+                pst.setdefault(t[3], []).append((Fraction(_num(t[1])), int(t[4])))
+            elif t[2] == "exec":
+                execs.setdefault(t[4], []).append((t[3], _num(t[6]), _num(t[7]), int(t[8])))
+            elif t[2] in ("susp", "res", "bound", "prio"):
+                touched.add(t[3])
+    for t in secs:
+        if not t:
+            continue
+        if t[0] == "H":
+            speeds = [Fraction(_num(x)) for x in t[2].split(",")]
+            peak = [(d, speeds[i]) for d, i in sorted(pst.get(t[1], []), key=lambda e: e[0]) if d <= tend]
+            scale = _profile_events(_num(t[4]), [tuple(_num(x) for x in p.split(":")) for p in t[5].split(",")], tend) \
+                if len(t) > 5 else []
+            tl = _merge([speeds[0], Fraction(1)], peak, scale)
+            out += ["CAP", t[1], t[3], ",".join("%s:%s" % (_rat(d), _rat(v)) for d, v in tl)]
+            ex = execs.get(t[1], [])
+            if ex and all(b <= 0 and p == 1.0 and th == ex[0][3] for _, b, p, th in ex) \
+                    and not any(i in touched for i, _, _, _ in ex):
+                out += ["EQH", t[1], str(ex[0][3])]
+        elif t[0] == "L":
+            bw = _profile_events(_num(t[5]), [tuple(_num(x) for x in p.split(":")) for p in t[6].split(",")], tend) \
+                if len(t) > 6 else []
+            # a bandwidth profile gives absolute values: the stream replaces the initial bandwidth
+            tl = _merge([Fraction(_num(t[2]))], bw)
+            out += ["CAP", t[1], "1", ",".join("%s:%s" % (_rat(d), _rat(v)) for d, v in tl)]
+    return out
 
 
 def witness_classes(line, cfg):
